@@ -235,7 +235,7 @@ def _df_fillna(df, method = None, axis = 0, limit = None):
         elif m in ('fnna', 'nona'):
             nonan = ~np.isnan(res)
             if len(res.shape)==2:
-                nonan = nonan.max(axis=1)
+                nonan = nonan.any(axis=1)
             if m == 'fnna':
                 nonan = nonan[nonan.values]
                 if len(nonan):
@@ -324,7 +324,7 @@ def _nona(df, value = np.nan, edge = None):
     else:
         mask = df == value
     while len(mask.shape) > 1:
-        mask = mask.min(axis = 1)
+        mask = mask.all(axis = 1)
     res = df[~mask]
     if edge is None or len(res) == 0 or not is_pd(df):
         return res
